@@ -92,8 +92,12 @@ Fixpoint m_stages (shiftc : Z -> Z -> Z) (wp b : Z) (n : nat) (i : Z) (last : Z)
 (* ShiftRight(a, b, r, arithmetic = False | True | <wire>) *)
 Inductive amode := ALogical | AArith | AWire (v : Z).
 
+(* width of the sign/zero pre-extension wires of the arithmetic modes, as the constructor computes it *)
+(* C07-SAR-WIDE: repaired in /repo, switched by fixes/C07_switch.py *)
+Definition sar_ext (wa wb wr : Z) : Z := Z.max wa wr + py_shl 1 wb.
+
 Definition m_ShiftRight (m : amode) (wa wb wr : Z) (a b : Z) : Z :=
-  let we := wa + py_shl 1 wb in
+  let we := sar_ext wa wb wr in
   let '(last, w) :=
     match m with
     | ALogical => (a, wa)
@@ -112,13 +116,15 @@ Definition m_ShiftLeft (wa wb wr : Z) (a b : Z) : Z :=
   let prer := m_stages (fun n x => ShiftLeftConstant_propagate w n x) w b (Z.to_nat wb) 0 a in
   Buf_propagate wr prer.
 
-(* RotateRight / RotateLeft: `shifted` wires have the width of r, `shift_i` wires the width of a *)
+(* RotateRight / RotateLeft: `shift_i` wires have the width of a; width of the `shifted` wires as the constructor declares them *)
+(* C07-ROT-NARROW: repaired in /repo, switched by fixes/C07_switch.py *)
+Definition rot_sw (wa wr : Z) : Z := Z.max wa wr.
 Definition m_RotateRight (wa wb wr : Z) (a b : Z) : Z :=
-  let prer := m_stages (fun n x => RotateRightConstant_propagate wa wr n x) wa b (Z.to_nat wb) 0 a in
+  let prer := m_stages (fun n x => RotateRightConstant_propagate wa (rot_sw wa wr) n x) wa b (Z.to_nat wb) 0 a in
   Buf_propagate wr prer.
 
 Definition m_RotateLeft (wa wb wr : Z) (a b : Z) : Z :=
-  let prer := m_stages (fun n x => RotateLeftConstant_propagate wa wr n x) wa b (Z.to_nat wb) 0 a in
+  let prer := m_stages (fun n x => RotateLeftConstant_propagate wa (rot_sw wa wr) n x) wa b (Z.to_nat wb) 0 a in
   Buf_propagate wr prer.
 
 (* ------------------------------------------------------------------------------------------------ *)
